@@ -473,7 +473,7 @@ theorem c15_fixed_witness :
   obtain ⟨st, evs, h1, _⟩ := stateAfter'_some w2_fixed_with_sats
   obtain ⟨st', evs', h2, e2⟩ := stateAfter'_some w2_fixed_without
   exact ⟨st, st', evs, evs', h1, h2, e2,
-    c15_fixed_runes_seen _ _ ⟨rfl, rfl, rfl, rfl, rfl⟩ w2Chain st st' evs evs' h1 h2⟩
+    c15_fixed_runes_seen (w2Cfg true false) (w2Cfg false false) ⟨rfl, rfl, rfl, rfl, rfl⟩ w2Chain st st' evs evs' h1 h2⟩
 
 /-! ## Non-vacuity -/
 
